@@ -37,7 +37,7 @@ var registry = []Harness{
 	{Prop: "C01", Pkg: "balance", Func: "VerifC01Op", Link: []string{"netmap", "balance"},
 		Quick:    [][]int{{0, 20, 20}, {0, 0, 20}, {0, 20, 19}, {1, 20, 20}, {2, 20, 20}, {3, 20, 20}, {4, 20, 20}, {5, 20, 20}},
 		Thorough: [][]int{{0, 20, 20}, {0, 0, 20}, {0, 19, 20}, {0, 21, 20}, {0, 20, 0}, {0, 20, 19}, {0, 20, 21}, {1, 20, 20}, {2, 20, 20}, {3, 20, 20}, {4, 20, 20}, {5, 20, 20}},
-		Bound:    "state: mint(a0,x0) mint(a1,x1) lock(a0->lk,y,until), all amounts symbolic; then ONE operation (param 0: transfer/transferX/mint/burn/lock/newEpoch) with symbolic 20-byte (public transfer: also 0/19/21-byte) from/to free to alias any account, symbolic amount in Z, symbolic signer set {Alphabet,a0,a1}+stranger; unwind 16"},
+		Bound:    "state: mint(a0,x0) mint(a1,x1) lock(a0->lk,y,until), all amounts symbolic; then ONE operation (param 0: transfer/transferX/mint/burn/lock/newEpoch) with symbolic 20-byte (public transfer: also 0/19/21-byte) from/to free to alias any account, symbolic amount in Z (the epoch of newEpoch: -2^62 <= e < 2^62, it is turned into bytes), symbolic signer set {Alphabet,a0,a1}+stranger; unwind 16"},
 	{Prop: "C02", Pkg: "balance", Func: "VerifC01Op", Link: []string{"netmap", "balance"},
 		Quick:    [][]int{{0, 20, 20}, {0, 0, 20}, {0, 20, 19}, {1, 20, 20}, {2, 20, 20}, {3, 20, 20}, {4, 20, 20}, {5, 20, 20}},
 		Thorough: [][]int{{0, 20, 20}, {0, 0, 20}, {0, 19, 20}, {0, 21, 20}, {0, 20, 0}, {0, 20, 19}, {0, 20, 21}, {1, 20, 20}, {2, 20, 20}, {3, 20, 20}, {4, 20, 20}, {5, 20, 20}},
@@ -172,9 +172,9 @@ var registry = []Harness{
 		Quick:    [][]int{{0, 0}, {0, 1}, {0, 2}, {0, 3}, {0, 4}, {1, 0}},
 		Bound:    "LEGACY Balance storage preset raw: three accounts under their bare 20-byte hash (amounts 1..10^6 symbolic), one of them a lock account of the first (until 2..100 symbolic), the supply entry; era param0 (0: v in [0.15.4,0.17.0) with the notary flag param1 and the two stored contract hashes, 1: [0.17.0,0.20.0)); symbolic version inside the era; then a transfer and two ticks around the lock's epoch"},
 	{Prop: "C16", Pkg: "container", Func: "VerifC16MigrateContainer", Link: []string{"container"},
-		Quick:    [][]int{{0, 0, 0}, {0, 1, 1}, {0, 2, 0}, {0, 3, 1}, {0, 4, 0}, {1, 0, 0}, {1, 0, 1}},
-		Thorough: [][]int{{0, 0, 0}, {0, 1, 0}, {0, 2, 0}, {0, 3, 0}, {0, 4, 0}, {0, 0, 1}, {0, 1, 1}, {0, 2, 1}, {0, 3, 1}, {0, 4, 1}, {1, 0, 0}, {1, 0, 1}},
-		Bound:    "LEGACY Container storage preset raw: two containers under their bare 32-byte id (V2 blobs, every byte but the layout symbolic) with the owner index under the bare 57-byte owner||id (param2: one or two owners), an eACL, the stored contract hashes; era param0 (0: v in [0.15.4,0.17.0) with the notary flag param1, 1: [0.17.0,current)); symbolic version inside the era; then one container is deleted"},
+		Quick:    [][]int{{0, 0, 0, 0}, {0, 1, 1, 1}, {0, 2, 0, 2}, {0, 3, 1, 0}, {0, 4, 0, 0}, {1, 0, 0, 1}, {1, 0, 1, 2}, {1, 0, 0, 12}},
+		Thorough: [][]int{{0, 0, 0, 0}, {0, 1, 0, 1}, {0, 2, 0, 2}, {0, 3, 0, 12}, {0, 4, 0, 0}, {0, 0, 1, 1}, {0, 1, 1, 2}, {0, 2, 1, 12}, {0, 3, 1, 0}, {0, 4, 1, 1}, {1, 0, 0, 0}, {1, 0, 1, 1}, {1, 0, 0, 2}, {1, 0, 1, 12}, {1, 0, 0, 12}},
+		Bound:    "LEGACY Container storage preset raw: two containers under their bare 32-byte id (V2 blobs, every byte but the layout symbolic) with the owner index under the bare 57-byte owner||id (param2: one or two owners), an eACL, the stored contract hashes, optionally one size estimation whose symbolic epoch encodes in param3 = 1, 2 or 12 bytes; era param0 (0: v in [0.15.4,0.17.0) with the notary flag param1, 1: [0.17.0,current)); symbolic version inside the era; then one container is deleted"},
 	{Prop: "C16", Pkg: "nns", Func: "VerifC16MigrateNNS", Link: []string{"nns"}, Unwind: 100,
 		Quick: [][]int{{0}, {1}},
 		Bound: "LEGACY NNS storage (< 0.18.0) preset raw in the layout of the recorded testnet dump: TLD 'com' as an ordinary token with a 20-byte owner, 'a.com' with a symbolic expiration, SOA records and one TXT record with 3 symbolic bytes, symbolic price >= 1; param0 = 1: the TLD's owner also owns a.com; symbolic version 0.15.4 <= v < 0.18.0; then a record is added and a sibling name registered"},
